@@ -917,7 +917,12 @@ func c07SetStr(m map[string]bool) string {
 var c07IncCounter int
 
 // programs accepted by model and compiler that call a nested pipeline: run in Tier A afterwards
+var c07LastProgReq string
+
 var c07NestedRun []string
+
+// the C07.progrun request (model's checked run) of a program text queued in c07NestedRun
+var c07NestedReq = map[string]string{}
 
 func c07CompileWithPaths(src string, paths []string) (ast *syntax.Ast, err error) {
 	defer func() {
@@ -1215,6 +1220,7 @@ func c07JudgePipe(c *Ctx, p *c07Pipe, class string) {
 			parts = append(parts, q.enc())
 		}
 		parts = append(parts, top.enc(), fmt.Sprint(len(chain)+1))
+		c07LastProgReq = strings.Join(parts, " ")
 		rep := c.Drv.Ask("C07.prog", strings.Join(parts, " "))
 		f := strings.Fields(rep)
 		if len(f) < 3 {
@@ -1254,6 +1260,7 @@ func c07JudgePipe(c *Ctx, p *c07Pipe, class string) {
 	if p.inner != nil && paths == nil && !strings.Contains(src, " local ") && !strings.Contains(src, "local = true") {
 		// (stages marked local are run by the real local job manager, which Tier A does not provide)
 		c07NestedRun = append(c07NestedRun, src+p.topCall())
+		c07NestedReq[src+p.topCall()] = c07LastProgReq
 	}
 	if c.Rng.Intn(2) == 0 {
 		c07JudgeTop(c, p, src, paths)
@@ -1827,6 +1834,22 @@ func c07NestedRuntime(c *Ctx, max int) {
 		r.hist("pipe_tiera_final_" + finalClass(res.Final))
 		r.count(cs.prog.Src, true)
 		if res.Final == "complete" {
+			// the model's checked run (runProgram, stages returning null outputs) of the same program must not fail
+			if req := c07NestedReq[cs.prog.Src]; req != "" {
+				rep := c.Drv.Ask("C07.progrun", req)
+				switch rep {
+				case "run none":
+					r.hist("pipe_tiera_complete_model_run_fails")
+				case "run nullDisabled":
+					r.hist("pipe_tiera_complete_model_run_nullDisabled") // the model's stages return null, also for `disabled` flags
+				default:
+					r.hist("pipe_tiera_complete_model_run_ok")
+				}
+				if rep == "run none" {
+					r.violate(Violation{Kind: "correspondence", Key: "C07:progrun:model-fails", What: "the real run of an accepted nested program completes, but the model's checked run (runProgram with null stage outputs) fails",
+						Input: map[string]interface{}{"program": cs.prog.Src}, Model: rep, Impl: "complete", Broken: "correspondence runProgram ~ Tier-A run"})
+				}
+			}
 			continue
 		}
 		if res.Final == "compile-error" {
